@@ -434,18 +434,43 @@ def _returned_values(g, P):
     return out
 
 
+def _ok_values(g, P, e, depth=0):
+    """Ok payloads a Result-valued provenance expression can carry (looking into tail calls of inlined helpers and into
+    try_fold, whose result is its initial accumulator or the Ok value of the last closure call)"""
+    out = []
+    if depth > 6 or not isinstance(e, tuple) or not e:
+        return out
+    if e[0] == "agg" and e[2] == "Ok" and e[3]:
+        out.append(e[3][0])
+    elif e[0] == "ret":
+        sub = g.callee_inst.get(e[3])
+        if sub is not None:
+            out += _ok_values_of_inst(g, P, sub, depth + 1)
+    elif e[0] == "call" and len(e) > 3 and re.search(r"iter::Iterator>?::try_fold$", str(e[1])) and len(e[2]) >= 2:
+        out.append(e[2][1])                               # zero elements: the initial accumulator
+        for sub in g.closure_insts.get(e[3], []):
+            out += _ok_values_of_inst(g, P, sub, depth + 1)
+    return out
+
+
+def _ok_values_of_inst(g, P, sub, depth):
+    out = []
+    for d in g.prog.defs(sub.key).get(0, []):
+        if (sub.id, d[1]) not in P.live:
+            continue
+        if d[0] == "s":
+            s = sub.body["blocks"][d[1]]["stmts"][d[2]]
+            if s["rv"]["k"] == "agg" and s["rv"].get("variant") == "Ok":
+                out.append(g.prov_operand(sub, s["rv"]["fields"][0]))
+            elif s["rv"]["k"] == "use":
+                out += _ok_values(g, P, g.prov_rvalue(sub, s["rv"], None), depth)
+        else:
+            out += _ok_values(g, P, g.prov_call(sub, d[1]), depth)
+    return out
+
+
 def _returned_ok_values(g, P):
     out = []
     for e in _returned_values(g, P):
-        if isinstance(e, tuple) and e and e[0] == "agg" and e[2] == "Ok" and e[3]:
-            out.append(e[3][0])
-        elif isinstance(e, tuple) and e and e[0] in ("ret",):
-            # tail call of an inlined helper returning the same Result: look inside
-            sub = g.callee_inst.get(e[3])
-            if sub is not None:
-                for d in g.prog.defs(sub.key).get(0, []):
-                    if d[0] == "s":
-                        s = sub.body["blocks"][d[1]]["stmts"][d[2]]
-                        if s["rv"]["k"] == "agg" and s["rv"].get("variant") == "Ok" and (sub.id, d[1]) in P.live:
-                            out.append(g.prov_operand(sub, s["rv"]["fields"][0]))
+        out += _ok_values(g, P, e)
     return out
